@@ -50,6 +50,7 @@ def dispatch (fam : String) : Option (List String → String → Option Res) :=
   | "ledgerslash" => some runLedger
   | "ledgerhist" => some runLedger
   | "apphash" => some runAppHash
+  | "apphashsettle" => some runAppHash
   | "ledgersettle" => some runLedger
   | "feestake" => some runFeeStake
   | "framesettle" => some runFrameSettle
